@@ -19,6 +19,15 @@ CLAIMS = {
             "candidate lists come from the provider's filter with the right flag. Dropping any one of these passes all 57 tests. "
             "That propagation/learning compute a model of the clauses is not decided.",
             "DESIGN.md section 4 C01"),
+    "C02": ("must-use / def-use analysis of conflict signals and decision errors, learnt-clause bookkeeping chain (post-dominance), guard dominance of Unsolvable constructions (MIR)",
+            "Decides necessary structural conditions for both directions of the verdict: conflict flags reach run_sat and both "
+            "encode results are acted on (Unsolvable for the root encode, restart otherwise); every try_add_decision error becomes a "
+            "Conflict naming the deciding clause or is asserted; analyze's bookkeeping chain is complete (same learnt id for literals, "
+            "antecedents and clause; registered; backtrack to max(running-max level, 1)) and the asserting literal is decided at the "
+            "returned level; Unsolvable is constructed only behind the root tests; unit propagation decides the other watched literal "
+            "with the cursor's clause as reason; try_add_decision separates new/same/opposite. Soundness of first-UIP itself and the "
+            "watch invariants under undo are not decided.",
+            "DESIGN.md section 4 C02"),
     "C06": ("order-source census (T-ORD) over resolved callees and receiver types + expected-zero entropy census + type facts",
             "C06 is a good fit for static analysis: nondeterminism must enter through an identifiable source. The check enumerates "
             "every order-revealing operation on a hash-ordered container (any hasher; resolved by rustc), requires each to be a "
